@@ -393,7 +393,15 @@ impl VarFileValueCache {
         // add new.
         {
             let free_piece_offset = self.0.pop_free_piece_list(new_piece_size)?;
+            let mut new_piece_size = new_piece_size;
             let new_piece_offset = if !free_piece_offset.is_zero() {
+                // a piece taken from the large free list may be bigger than requested:
+                // keep its size, otherwise its tail would be lost.
+                self.0.seek_from_start(free_piece_offset)?;
+                let free_piece_size = self.0.read_piece_size()?;
+                if new_piece_size < free_piece_size {
+                    new_piece_size = free_piece_size;
+                }
                 self.0.seek_from_start(free_piece_offset)?;
                 free_piece_offset
             } else {
